@@ -16,7 +16,7 @@ POOL = ["ed2", "ed3", "ed4", "edp1", "ec-b", "ec-c"]
 OUTSIDERS = ["ed7", "edp3"]
 RSA_POOL = ["rsa-2048-a", "rsa-2048-b512"]
 STATES = ["absent", "absent", "valid", "valid", "valid", "misfiled", "flipped", "edited", "double", "sublayout_unauth",
-          "unsigned", "wrong_name_inside", "cosigned_broken_own", "cosigned_broken_own"]
+          "unsigned", "wrong_name_inside", "cosigned_broken_own", "cosigned_broken_own", "odd_file_name"]
 
 
 def judge(case, obs, res):
@@ -92,7 +92,7 @@ def shard(binpath, seed, sh, n):
                 if state == "absent":
                     continue
                 f = {"step": p["name"], "key": k, "state": state, "req": len(reqs)}
-                if state in ("valid", "flipped", "edited", "wrong_name_inside"):
+                if state in ("valid", "flipped", "edited", "wrong_name_inside", "odd_file_name"):
                     d = copy.deepcopy(doc)
                     if state == "wrong_name_inside":
                         pass   # name inside the link is not what is matched; file name decides (kept valid)
@@ -150,7 +150,14 @@ def shard(binpath, seed, sh, n):
                         b = bytearray(bytes.fromhex(sg["sig"]))
                         b[len(b) // 2] ^= 0x01
                         sg["sig"] = bytes(b).hex()
-            files[f"{f['step']}.{W.pfx(k)}.link"] = scen.dumps(w)
+            if st == "odd_file_name":
+                # a valid link by k under a name whose eight-character field is not k's id prefix (it merely contains
+                # the beginning of it, or nothing of it): filed under a prefix that none of its signatures carries
+                px = W.pfx(k)
+                fld = rng.choice(["........", "." + px[:7], px[:3] + ".link", px[:4] + "....", "...." + px[:4], px[:7] + "."])
+                files[f"{f['step']}.{fld}.link"] = scen.dumps(w)
+            else:
+                files[f"{f['step']}.{W.pfx(k)}.link"] = scen.dumps(w)
             authorised = k in auth_of[f["step"]] and k in sc["table"]
             counts = authorised and st in ("valid", "double", "wrong_name_inside")
             if st == "sublayout_unauth":
@@ -237,7 +244,7 @@ def main(ctx):
              "directory not empty; distinct by SHA-256 of (layout, directory)",
         assumptions=["ground truth of who validly signed what is by construction"],
         required=["positive_control_accepted", "expect:reject", "observed:reject", "state:valid(unauth)", "state:misfiled",
-                  "state:flipped", "state:edited", "state:double", "state:cosigned_broken_own", "state:entry_under_unknown_scheme_key",
+                  "state:flipped", "state:edited", "state:double", "state:cosigned_broken_own", "state:entry_under_unknown_scheme_key", "state:odd_file_name",
                   "decided_by_authorisation_rule", "threshold:0",
                   "threshold:2", "threshold:3"],
         min_evals=500)
